@@ -162,7 +162,7 @@ def del_worker(_):
             "lookup_called": "spec_classes.types.attr:Attr.lookup_default_value" in it.functions_entered}
 
 
-def check(ctx, rep: Report):
+def _check_main(ctx, rep: Report):
     # ---- FR
     rep.rules["C08.FR"] = "every return of lookup_default_value/default_value is fresh, a factory result, immutable or MISSING"
     for r in pmap(fr_worker, ["lookup_default_value", "default_value"]):
@@ -354,3 +354,13 @@ def check(ctx, rep: Report):
                                           site, short))
     if nforce < 3:
         raise AnalysisError(f"C08.FORCE: only {nforce} force producers found (floor 3)")
+
+
+def check(ctx, rep):
+    from . import metarules, shared
+    _check_main(ctx, rep)
+    metarules.inherited_rebuild(ctx, rep, "C08.META")
+    metarules.attr_spec_writers(ctx, rep, "C08.SPEC")
+    shared.unused_params(ctx, rep, "C08.PARAM", ["spec_classes.types.attr"])
+    from .c05 import resetall_rule
+    resetall_rule(ctx, rep, "C08.RESETALL")
